@@ -40,6 +40,7 @@ func (c09) Assumptions() []string {
 
 func (c09) Gates(tier string, m map[string]int64) []rt.Gate {
 	gs := []rt.Gate{
+		rt.GateMin("filters that use a GROUP BY field by name", m, "group_field_named_in_where", 200),
 		rt.GateMin("stores whose keys contain NUL bytes (tuples colliding under a NUL separator)", m, "store_with_nul_bytes", 100),
 		rt.GateMin("aggregate statements judged", m, "judged", 2000),
 		rt.GateMin("stores with colliding concatenations and >=2 grouping expressions", m, "colliding_tuples", 200),
@@ -61,6 +62,9 @@ var c09Parts = []string{"a", "ab", "b", "bc", "c", "", "1", "12", "2", "23", "3"
 // parts with NUL bytes: tuples that collide when joined with a NUL separator
 var c09PartsNul = []string{"a", "a\x00b", "b", "b\x00c", "c", "\x00", "", "a\x00", "\x00b", "\x00\x00"}
 
+// parts that begin or end with characters an implementation may join group values with
+var c09PartsSep = []string{"a", "a:", ":b", "b", ":", "", "a:b", "b,", ",c", "c", "a-", "-b"}
+
 func c09Store(r *rt.Rand, floats bool) []refstore.Pair {
 	n := r.Range(0, 40)
 	if r.Chance(1, 10) {
@@ -72,6 +76,8 @@ func c09Store(r *rt.Rand, floats bool) []refstore.Pair {
 	parts := c09Parts
 	if r.Chance(1, 8) {
 		parts = c09PartsNul
+	} else if r.Chance(1, 8) {
+		parts = c09PartsSep
 	}
 	for i := 0; i < n; i++ {
 		p, q := parts[r.Intn(len(parts))], parts[r.Intn(len(parts))]
@@ -126,6 +132,19 @@ func (k c09) Run(c *rt.Ctx) {
 			continue
 		}
 		groups = append(groups, gpool[r.Intn(len(gpool))])
+	}
+	if len(groups) >= 1 && len(groups) < 3 && r.Chance(1, 4) {
+		// a grouping expression defined through another GROUP BY field's name
+		gi := r.Intn(len(groups))
+		ref := gen.Ref(fmt.Sprintf("g%d", gi), groups[gi])
+		switch groups[gi].T {
+		case gen.TN:
+			groups = append(groups, gen.Bin("*", ref, gen.Int(2)))
+			c.Rec.Inc("group_field_defined_through_a_name")
+		case gen.TS:
+			groups = append(groups, gen.Bin("+", ref, gen.Str("x")))
+			c.Rec.Inc("group_field_defined_through_a_name")
+		}
 	}
 	// numeric argument expressions
 	var numArg func() *gen.Node
@@ -268,7 +287,41 @@ func (k c09) Run(c *rt.Ctx) {
 		cols[i], cols[j] = cols[j], cols[i]
 	}
 	var where *gen.Node
-	switch r.Intn(5) {
+	switch r.Intn(6) {
+	case 5:
+		// the filter uses a GROUP BY field by name and drops some pairs in between
+		drop := []string{"0", "1", "2", "5"}[r.Intn(4)]
+		where = gen.Bin("!=", gen.Value(), gen.Str(drop))
+		if !floats && !implicit && r.Bool() {
+			// every second pair (in key order) is dropped: the rows that pass a scan window
+			// are then as many as half a window, and two windows' worth as many as one window
+			for i := range pairs {
+				if i%2 == 1 {
+					pairs[i].V = drop
+				} else if pairs[i].V == drop {
+					pairs[i].V = "7"
+				}
+			}
+		}
+		if len(groups) > 0 {
+			gi := r.Intn(len(groups))
+			ref := gen.Ref(fmt.Sprintf("g%d", gi), groups[gi])
+			var cond *gen.Node
+			switch groups[gi].T {
+			case gen.TN:
+				cond = gen.Bin(">=", ref, gen.Int(-100000))
+			case gen.TS:
+				cond = gen.Bin("!=", ref, gen.Str("no such group"))
+			}
+			if cond != nil {
+				if r.Bool() {
+					where = gen.And(cond, where)
+				} else {
+					where = gen.And(where, cond)
+				}
+				c.Rec.Inc("group_field_named_in_where")
+			}
+		}
 	case 0:
 		where = gen.Bool(true)
 	case 1:
@@ -284,7 +337,7 @@ func (k c09) Run(c *rt.Ctx) {
 	plain.Where = where
 	mode := drive.Mode{Batch: r.Bool(), Size: pickBatch(c), Cache: r.Chance(3, 4)}
 	q := stmt.Text(gen.Plain)
-	pq := plain.Text(gen.Plain)
+	pq := plain.TextExpanded(gen.Plain) // the plain select has no named fields: names are written out
 	if len(plain.Fields) == 0 {
 		return
 	}
